@@ -679,6 +679,17 @@ func r40DecodeTotal(c *core.Ctx) {
 				return true
 			}
 			nilChecked := false
+			// on the SSA form: the indexed value is non-nil on every way into the indexing (handles a re-assignment
+			// with its own nil check nested in the first one)
+			if f.SSA != nil {
+				for _, b := range f.SSA.Blocks {
+					for _, in := range b.Instrs {
+						if ia, ok := in.(*ssa.IndexAddr); ok && ia.Pos() == ix.Lbrack && provenNonNil(ia.X, b, 0) {
+							nilChecked = true
+						}
+					}
+				}
+			}
 			for _, gd := range guardsBefore(c.P, info, f.Decl.Body, ix) {
 				if !gd.IsTrue {
 					for _, dj := range disjuncts(gd.Cond) {
@@ -945,4 +956,56 @@ func r40DecodeTotal(c *core.Ctx) {
 	c.FloorPrefix(R, "submatch-index-in-range/", 3)
 	c.FloorPrefix(R, "lookup-checked/", 6)
 	c.FloorPrefix(R, "positive-constraint/", 6)
+}
+
+// provenNonNil: value v is known to be non-nil whenever block at is entered: a dominating test `v == nil` / `v != nil`
+// whose non-nil side leads here, or, for a phi, each incoming value proven so on its own edge.
+func provenNonNil(v ssa.Value, at *ssa.BasicBlock, depth int) bool {
+	if depth > 4 {
+		return false
+	}
+	nonNilSucc := func(b *ssa.BasicBlock, x ssa.Value) int {
+		i := core.BlockIf(b)
+		if i == nil {
+			return -1
+		}
+		bo, ok := i.Cond.(*ssa.BinOp)
+		if !ok || (bo.Op != token.EQL && bo.Op != token.NEQ) {
+			return -1
+		}
+		l, r := bo.X, bo.Y
+		if isNilConst(l) {
+			l, r = r, l
+		}
+		if l != x || !isNilConst(r) {
+			return -1
+		}
+		if bo.Op == token.EQL {
+			return 1
+		}
+		return 0
+	}
+	// a dominating test whose non-nil successor dominates `at` and is entered only from the test
+	for d := at; d != nil; d = d.Idom() {
+		if k := nonNilSucc(d, v); k >= 0 {
+			s := d.Succs[k]
+			if (s == at || s.Dominates(at)) && len(s.Preds) == 1 {
+				return true
+			}
+		}
+	}
+	if ph, ok := v.(*ssa.Phi); ok && (ph.Block() == at || ph.Block().Dominates(at)) {
+		for i, e := range ph.Edges {
+			pred := ph.Block().Preds[i]
+			// the edge pred -> phi block is itself the non-nil side of a test of e
+			if k := nonNilSucc(pred, e); k >= 0 && pred.Succs[k] == ph.Block() {
+				continue
+			}
+			if !provenNonNil(e, pred, depth+1) {
+				return false
+			}
+		}
+		return true
+	}
+	return false
 }
